@@ -306,7 +306,7 @@ theorem deactLoop_good (n : Nat) (hrec : RecGood n) (E : Nat → Prop) (u fid : 
           have hz : modFlow s1 c (fun f => { f with activated := 0 }) = setFlow s1 c { cf1 with activated := 0 } :=
             modFlow_some _ _ _ _ hcf1
           have g2 : Good E s1 (setFlow s1 c { cf1 with activated := 0 }) :=
-            Good.setFlow_keep hcf1 ⟨rfl, rfl, rfl, rfl, rfl, Or.inl rfl, fun _ h => h, by simp⟩ rfl
+            Good.setFlow_keep hcf1 ⟨rfl, rfl, fun h => h, rfl, rfl, Or.inl rfl, fun _ h => h, by simp⟩ rfl
               (Or.inr (fun _ hl => by rw [hl1] at hl; cases hl))
           have g := g1.trans g2
           rw [hz] at h
@@ -336,9 +336,19 @@ theorem removeFromParent_good (E : Nat → Prop) (s : State) (u : Nat) (s' : Sta
           split at h
           · cases h
             exact Good.setFlow_keep (f' := { pf with children := pf.children.erase u }) hpf
-              ⟨rfl, rfl, rfl, rfl, rfl, Or.inl rfl, fun c hc => List.mem_of_mem_erase hc, by simp⟩ rfl (Or.inr (fun ha _ => ha))
+              ⟨rfl, rfl, fun h => h, rfl, rfl, Or.inl rfl, fun c hc => List.mem_of_mem_erase hc, by simp⟩ rfl (Or.inr (fun ha _ => ha))
           · cases h
     · cases h; exact Good.refl E s
+
+theorem markNoRestart_good (E : Nat → Prop) (s : State) (u : Nat) : Good E s (markNoRestart s u) := by
+  unfold markNoRestart
+  split
+  · next f hf =>
+    split
+    · exact Good.setFlow_keep (f' := { f with nis := true }) hf ⟨rfl, rfl, fun _ => rfl, rfl, rfl, Or.inl rfl, fun _ h => h, by simp⟩ rfl
+        (Or.inr (fun ha _ => ha))
+    · exact Good.refl E s
+  · exact Good.refl E s
 
 /-- the part of `_abort_flow` / `_finish_flow` up to (excluding) the status change: child loop, stop-actions loop,
     heads cleared — and what is then known about the children of `u` -/
@@ -352,7 +362,7 @@ theorem body_prefix_good (n : Nat) (hrec : RecGood n) (E : Nat → Prop) (u : Na
   have g2 : Good E s1 s2 := Good.of_flows_eq (stopActions_steps _ _ _ h2) e1
   have hs2u : s2.flows u = some f1 := by rw [e1]; exact hf1
   have g3 : Good E s2 (setFlow s2 u { f1 with heads := 0 }) :=
-    Good.setFlow_keep hs2u ⟨rfl, rfl, rfl, rfl, rfl, Or.inl rfl, fun _ h => h, by simp⟩ rfl (Or.inr (fun ha _ => ha))
+    Good.setFlow_keep hs2u ⟨rfl, rfl, fun h => h, rfl, rfl, Or.inl rfl, fun _ h => h, by simp⟩ rfl (Or.inr (fun ha _ => ha))
   refine ⟨g1.trans (g2.trans g3), ?_⟩
   intro c cf hc hcf he ha
   cases hl : cf.status.listening with
@@ -390,7 +400,11 @@ theorem abortBody_good (n : Nat) (hrec : RecGood n) (E : Nat → Prop) (u : Nat)
             split at h
             · cases h
             · next s4 h4 =>
-              obtain ⟨g3, hk⟩ := body_prefix_good n hrec E u s f hf hs s1 h1 f1 hf1 s2 h2
+              have gm := markNoRestart_good E s u
+              obtain ⟨f0, hf0, hch0, _⟩ := markNoRestart_self s u f hf
+              obtain ⟨g3', hk⟩ := body_prefix_good n hrec E u (markNoRestart s u) f0 hf0 (gm.steps.sfc hs) s1
+                (by rw [hch0]; exact h1) f1 hf1 s2 h2
+              have g3 := gm.trans g3'
               have g4 := removeFromParent_good E _ _ _ h4
               obtain ⟨_, _, _, fl4⟩ := removeFromParent_flows _ _ _ h4
               -- the record of `u` after the removal from the parent's list
@@ -402,7 +416,7 @@ theorem abortBody_good (n : Nat) (hrec : RecGood n) (E : Nat → Prop) (u : Nat)
               obtain ⟨f4, hf4, hch4⟩ := hu4
               rw [modFlow_some _ _ _ _ hf4] at h
               have g5 : Good E s4 (setFlow s4 u { f4 with status := .stopped }) := by
-                refine Good.setFlow_end hf4 ⟨rfl, rfl, rfl, rfl, rfl, Or.inr (Or.inl rfl), fun _ h => h, by simp⟩ rfl ?_
+                refine Good.setFlow_end hf4 ⟨rfl, rfl, fun h => h, rfl, rfl, Or.inr (Or.inl rfl), fun _ h => h, by simp⟩ rfl ?_
                 intro c cf hc hcf he hcu ha
                 -- the record of `c` is the one after the child loop, up to its children list
                 have hc1 : ∃ cf1, s1.flows c = some cf1 ∧ cf1.activated = cf.activated ∧ cf1.status = cf.status := by
@@ -437,7 +451,7 @@ theorem deactivatePhase_good (n : Nat) (hrec : RecGood n) (E : Nat → Prop) (u 
     · cases h; exact Good.refl E s
     · dsimp only at h
       have g0 : Good E s (setFlow s u { f with activated := f.activated - 1 }) :=
-        Good.setFlow_keep hf ⟨rfl, rfl, rfl, rfl, rfl, Or.inl rfl, fun _ h => h, by simp⟩ rfl (Or.inl hE)
+        Good.setFlow_keep hf ⟨rfl, rfl, fun h => h, rfl, rfl, Or.inl rfl, fun _ h => h, by simp⟩ rfl (Or.inl hE)
       split at h
       · split at h
         · next s2 h2 =>
@@ -471,7 +485,7 @@ theorem abortFlow_good : ∀ (n : Nat), RecGood n
       cases h
       rcases hend with ⟨_, _, e, hne⟩ | ⟨f', hf', hl', _⟩
       · rw [e]
-        exact Good.setFlow_keep hfu ⟨rfl, rfl, rfl, rfl, rfl, Or.inl rfl, fun _ h => h, by simp⟩ rfl
+        exact Good.setFlow_keep hfu ⟨rfl, rfl, fun h => h, rfl, rfl, Or.inl rfl, fun _ h => h, by simp⟩ rfl
           (Or.inr (fun ha _ => absurd ha hne))
       · exact g.unexempt (fun g' hg' => by rw [hf'] at hg'; cases hg'; exact hl')
     · next s1 h1 =>
@@ -545,7 +559,7 @@ theorem finishBody_good (n : Nat) (hrec : RecGood n) (E : Nat → Prop) (u : Nat
               · next s5 h5 =>
                 have g4 : Good E (setFlow s2 u { f1 with heads := 0 })
                     (setFlow (setFlow s2 u { f1 with heads := 0 }) u { f1 with heads := 0, status := .finished }) := by
-                  refine Good.setFlow_end (setFlow_flows_same _ _ _) ⟨rfl, rfl, rfl, rfl, rfl, Or.inr (Or.inr rfl), fun _ h => h, by simp⟩ rfl ?_
+                  refine Good.setFlow_end (setFlow_flows_same _ _ _) ⟨rfl, rfl, fun h => h, rfl, rfl, Or.inr (Or.inr rfl), fun _ h => h, by simp⟩ rfl ?_
                   intro c cf hc hcf he hcu ha
                   rw [setFlow_flows_ne _ _ _ _ hcu, e1] at hcf
                   exact hk c cf hc hcf he ha
@@ -693,7 +707,7 @@ theorem deactLoop_no_fuel (r : Nat → Nat) (n : Nat) (hF : RecFuel r n) (fid : 
         · next s1 h1 =>
           have st := abortFlow_true_steps n s c s1 h1
           have st2 : Steps false s (modFlow s1 c fun f => { f with activated := 0 }) :=
-            st.trans (Steps.modFlow s1 c (fun f => { f with activated := 0 }) (fun f => ⟨rfl, rfl, rfl, rfl, rfl, Or.inl rfl, fun _ h => h, by simp⟩))
+            st.trans (Steps.modFlow s1 c (fun f => { f with activated := 0 }) (fun f => ⟨rfl, rfl, fun h => h, rfl, rfl, Or.inl rfl, fun _ h => h, by simp⟩))
           obtain ⟨_, hn, _⟩ := st2.flows_rel
           exact deactLoop_no_fuel r n hF fid cs _ (st2.ranked hr)
             (fun c' hc' hne => hl c' (List.mem_cons_of_mem _ hc') (fun e => hne (hn c' e)))
@@ -732,7 +746,7 @@ theorem deactivatePhase_no_fuel (r : Nat → Nat) (n : Nat) (hF : RecFuel r n) (
         · next e he =>
           cases h
           have st : Steps false s (setFlow s u { f with activated := f.activated - 1 }) :=
-            .single (.flow (f' := { f with activated := f.activated - 1 }) hf ⟨rfl, rfl, rfl, rfl, rfl, Or.inl rfl, fun _ h => h, by simp⟩)
+            .single (.flow (f' := { f with activated := f.activated - 1 }) hf ⟨rfl, rfl, fun h => h, rfl, rfl, Or.inl rfl, fun _ h => h, by simp⟩)
           obtain ⟨_, hn, _⟩ := st.flows_rel
           refine deactLoop_no_fuel r n hF f.flowId f.children _ (st.ranked hr) ?_ he
           intro c hc hne
@@ -751,8 +765,10 @@ theorem abortBody_no_fuel (r : Nat → Nat) (n : Nat) (hF : RecFuel r n) (s : St
     · split at h
       · next e he =>
         cases h
-        exact childLoop_no_fuel r n hF f.children s hr
-          (fun c hc hne => Nat.lt_of_lt_of_le (hr u f c hf hc hne) hu) he
+        have st : Steps false s (markNoRestart s u) := markNoRestart_steps s u
+        obtain ⟨_, hn, _⟩ := st.flows_rel
+        exact childLoop_no_fuel r n hF f.children _ (st.ranked hr)
+          (fun c hc hne => Nat.lt_of_lt_of_le (hr u f c hf hc (fun e => hne (hn c e))) hu) he
       · split at h
         · cases h
         · split at h
